@@ -48,7 +48,6 @@ LEVEL_TEXT = ('Kernel-checked theorems for all strings, all avoid sets and every
 LEVEL_NOTE = ('Trusted: Coq kernel, the hand-written model (validated differentially each run), the table-driven '
               'instantiation of unicodedata/str.upper/re for non-ASCII characters. Case-insensitivity is upper-case '
               'equality, as in the code; for ASCII names this is ordinary ASCII case folding (separate theorem).')
-DISABLED = True
 
 KW_GEN = os.path.join(core.COQ, 'gen', 'Kwlist_gen.v')
 ID_RE = re.compile(r'[A-Za-z][A-Za-z0-9_]*')
@@ -71,7 +70,7 @@ def impl():
   return identifiers
 
 
-class _Timeout(Exception):
+class _Timeout(BaseException):
   pass
 
 
@@ -710,11 +709,10 @@ def gen_history(ctx):
   return hist
 
 
-def resolve_and_run(hist):
+def resolve_and_run(hist, concrete):
   """`('$T', k)` = k-th user table currently in the document, `('$C', k)` = its k-th visible column."""
   from harness import gristenv
   e, _ = gristenv.new_doc()
-  concrete = []
   for a in hist:
     a = list(a)
     tabs = engine_ids(e)
@@ -743,7 +741,7 @@ def resolve_and_run(hist):
 
 
 def engine_oracle(w):
-  st, bad = call(run_history, w['history'], _limit=30.0)
+  st, bad = call(run_history, w['history'], _limit=15.0)
   if st == 'timeout':
     return ('timeout', 'engine history %r: %s' % (w['history'], bad))
   if st != 'ok':
@@ -754,12 +752,13 @@ def engine_oracle(w):
 def engine_search(ctx):
   n = ctx.n(12, 300)
   for _ in range(n):
-    st, hist = call(resolve_and_run, gen_history(ctx), _limit=30.0)
+    hist = []
+    st, msg = call(resolve_and_run, gen_history(ctx), hist, _limit=15.0)
     if st != 'ok':
-      ctx.log('engine history could not be generated: %s' % (hist,))
+      ctx.log('engine history could not be generated: %s' % (msg,))
       if st == 'timeout':
-        ctx.violation('engine:timeout', 'an AddTable/AddColumn/Rename history did not finish: %s' % hist,
-                      {'fn': 'engine', 'history': [], 'avoid': [], 'note': 'history generation itself hung'})
+        ctx.violation('engine:timeout', 'the last action of the history %r did not finish: %s' % (hist, msg),
+                      {'fn': 'engine', 'history': hist, 'avoid': []})
         return
       continue
     w = {'fn': 'engine', 'history': hist, 'avoid': []}
